@@ -188,8 +188,24 @@ def run(ctx, chk):
         newic = r.state.heap.get((selfo, (("f", None, "is_complete"),)))
         for x in rr:
             wr_, wi_ = x.value[1]
-            chk.require(newrem == wr_, "M6", at.defp + ":remaining", at.span, "remaining_quantity becomes %s, reference %s" % (short(newrem), short(wr_)))
-            chk.require(newic == wi_, "M6", at.defp + ":is_complete", at.span, "is_complete becomes %s, reference %s" % (short(newic), short(wi_)))
+            def same_int(a, b):
+                return a == b or (a is not None and b is not None and prove_zero(affine(a).add(affine(b), -1), r.facts)[0])
+
+            def same_bool(a, b):
+                if a == b:
+                    return True
+                za = a[2] if isinstance(a, tuple) and len(a) == 4 and a[0] == "bin" and a[1] == "Eq" and a[3] == Int(0) else None
+                zb = b[2] if isinstance(b, tuple) and len(b) == 4 and b[0] == "bin" and b[1] == "Eq" and b[3] == Int(0) else None
+                if za is not None and zb is not None:
+                    return same_int(za, zb)
+                # one side already decided on this path (`0 == 0`)
+                for x, z in ((a, zb), (b, za)):
+                    if is_int(x) and z is not None:
+                        zero = prove_zero(affine(z), r.facts)[0]
+                        return (x[1] == 1) == zero if zero else False
+                return False
+            chk.require(same_int(newrem, wr_), "M6", at.defp + ":remaining", at.span, "remaining_quantity becomes %s, reference %s" % (short(newrem), short(wr_)), describe_path(r))
+            chk.require(same_bool(newic, wi_), "M6", at.defp + ":is_complete", at.span, "is_complete becomes %s, reference %s" % (short(newic), short(wi_)), describe_path(r))
         pushes = [e for e in r.trace if e[0] == "call" and e[1].endswith("Vec::push")]
         okp = len(pushes) == 1 and pushes[0][2][1] == ("param", 2) and "transactions" in short(pushes[0][2][0])
         chk.require(okp, "M6", at.defp + ":appends", at.span, "the transaction is not appended to self.transactions exactly once (%s)" % [short(e[2][1])[:60] for e in pushes])
